@@ -1,4 +1,65 @@
 import Exetera.Model.Concat
 import Exetera.Spec.CsvLine
+/-!
+  C16 — counterexamples, checked by kernel evaluation (`decide`).
+
+  * D25 and NC16a are *repaired* (fixes/D25_*.patch, fixes/NC16a_*.patch); the as-found variant of the batch loop is kept
+    in the model so that the defects stay documented by theorems and a regression can be named.
+  * The last group shows that the hypotheses of `Props.C16.concat_eq_spec` are not superfluous: outside them the
+    (repaired) model runs out of its buffers.
+-/
 namespace Exetera.Witness.C16
+
+open Exetera Exetera.Concat Exetera.Spec.CsvLine
+
+/-- eight one-character strings `a … h` -/
+def letters : List (List Nat) := [[97], [98], [99], [100], [101], [102], [103], [104]]
+def eachRow : List Nat := [0, 1, 2, 3, 4, 5, 6, 7, 8]
+
+/-- D25 as found: eight one-row spans, `src_chunksize = 3` → batches of 2, 3, 3 spans; the third batch is given the
+    size of the second batch (3) instead of the running total (5) as `dest_start_v`: offsets `…,5,4,5,6`. -/
+theorem d25_asFound_third_batch :
+    applySpansConcat .asFound (44 : Nat) 34 eachRow (offsets letters) letters.flatten 3 16 16
+      = .ok ⟨[0, 1, 2, 3, 4, 5, 4, 5, 6], [97, 98, 99, 100, 101, 102, 103, 104]⟩ := by decide
+
+/-- … which is not what the property demands -/
+theorem d25_asFound_violates_spec :
+    applySpansConcat .asFound (44 : Nat) 34 eachRow (offsets letters) letters.flatten 3 16 16
+      ≠ .ok ⟨storedIndices (concatSpec 44 34 letters eachRow), (concatSpec 44 34 letters eachRow).flatten⟩ := by decide
+
+/-- the repaired loop on the same input -/
+theorem d25_repaired :
+    applySpansConcat .repaired (44 : Nat) 34 eachRow (offsets letters) letters.flatten 3 16 16
+      = .ok ⟨[0, 1, 2, 3, 4, 5, 6, 7, 8], [97, 98, 99, 100, 101, 102, 103, 104]⟩ := by decide
+
+/-- NC16a as found: `src_chunksize = 1` allocates a one-slot `dest_index`, and the first batch writes `dest_index[1]` -/
+theorem nc16a_asFound_index_overrun :
+    applySpansConcat .asFound (44 : Nat) 34 [0, 1, 2, 3, 4] (offsets (letters.take 4)) (letters.take 4).flatten 1 16 16
+      = .error (.oob "dest_index[d_index_i]") := by decide
+
+theorem nc16a_repaired :
+    applySpansConcat .repaired (44 : Nat) 34 [0, 1, 2, 3, 4] (offsets (letters.take 4)) (letters.take 4).flatten 1 16 16
+      = .ok ⟨[0, 1, 2, 3, 4], [97, 98, 99, 100]⟩ := by decide
+
+/-! ### the hypotheses of `concat_eq_spec` are needed -/
+
+/-- a span output (4 bytes) longer than half the value buffer (4 / 2): after the first span (1 byte, below the limit 2)
+    the second one does not fit any more -/
+theorem room_hypothesis_needed :
+    applySpansConcat .repaired (44 : Nat) 34 [0, 1, 2] (offsets [[97], [98, 99, 100, 101]]) [97, 98, 99, 100, 101] 4 2 2
+      = .error (.oob "dest_values[copy]") := by decide
+
+/-- `src_chunksize = 0`: no room for the leading zero and one offset -/
+theorem srcChunk_hypothesis_needed :
+    applySpansConcat .repaired (44 : Nat) 34 [0, 1] (offsets [[97]]) [97] 0 16 16
+      = .error (.oob "dest_index[d_index_i]") := by decide
+
+/-- a span boundary beyond the column: `src_index[sp_next]` does not exist -/
+theorem bound_hypothesis_needed :
+    applySpansConcat .repaired (44 : Nat) 34 [0, 3] (offsets [[97]]) [97] 4 16 16
+      = .error (.oob "src_index[sp_next]") := by decide
+
+/-- the empty line is the one list `parseCsvLine ∘ joinCsv` does not return -/
+theorem roundtrip_exception : parseCsvLine (44 : Nat) 34 (joinCsv 44 34 [[]]) = [] := by decide
+
 end Exetera.Witness.C16
